@@ -632,10 +632,25 @@ impl GraphDatabaseService {
     /// get node deletions for a room at a specific day
     ///
     pub async fn delete_nodes(&self, nodes: Vec<NodeDeletionEntry>) -> Result<()> {
-        let (send_response, receive_response) = oneshot::channel::<Result<()>>();
-        let msg = DbMessage::DeleteNodes(nodes, send_response);
-        let _ = self.sender.send(msg).await;
-        receive_response.await?
+        // the validation step keys a batch by row id (NodeDeletionEntry::with_previous_authors):
+        // a row can have several deletion records, every batch gets at most one of them
+        let mut batches: Vec<Vec<NodeDeletionEntry>> = Vec::new();
+        for entry in nodes {
+            match batches
+                .iter_mut()
+                .find(|batch| !batch.iter().any(|e| e.id == entry.id))
+            {
+                Some(batch) => batch.push(entry),
+                None => batches.push(vec![entry]),
+            }
+        }
+        for batch in batches {
+            let (send_response, receive_response) = oneshot::channel::<Result<()>>();
+            let msg = DbMessage::DeleteNodes(batch, send_response);
+            let _ = self.sender.send(msg).await;
+            receive_response.await??;
+        }
+        Ok(())
     }
 
     ///
